@@ -217,3 +217,16 @@ mod is_tmp_editor_file_tests {
         assert!(is_tmp_editor_file(path));
     }
 }
+
+#[cfg(zinoma_verif)]
+pub fn verif_is_other_file_in_file_dir(
+    file_path: &Path,
+    watched_paths: &[PathBuf],
+    watched_files: &[PathBuf],
+) -> bool {
+    let file_dirs = watched_files
+        .iter()
+        .filter_map(|path| path.parent().map(|dir| dir.to_path_buf()))
+        .collect::<Vec<PathBuf>>();
+    is_other_file_in_file_dir(file_path, watched_paths, &file_dirs)
+}
